@@ -19,7 +19,10 @@ fn gen(t: &mut Tape, _tier: Tier) -> Scenario {
     // 4 "lying size": a size in effect that is smaller than what the stream holds,
     //   typically falling inside a match — completion happens by overshooting
     let kind = t.below(5);
-    let b = gen_lzma(t, if kind == 0 || kind == 4 { 2 } else { 0 }, 2500);
+    // kind 5: a valid stream of several windows with the sink failing while the
+    // window is handed over (the only moment the streaming decoder writes)
+    let kind = if kind == 2 && t.below(2) == 0 { 5 } else { kind };
+    let b = gen_lzma(t, if kind == 0 || kind == 4 { 2 } else { 0 }, if kind == 5 { 20_000 } else { 2500 });
     opts.mode = t.below(3);
     let mut size = if b.marker { None } else { Some(b.expect.len() as u64) };
     let mut lying: Option<(u64, u64)> = None; // (declared size, input offset of completion within the payload)
@@ -60,6 +63,13 @@ fn gen(t: &mut Tape, _tier: Tier) -> Scenario {
         sc.set_i("lying", 1);
         sc.set_b("expect", b.expect.clone());
         note = format!("size in effect {} of {} (inside the stream): completion after {} input bytes", n, b.expect.len(), hl + c);
+    } else if kind == 5 {
+        let k = t.range(1, 3);
+        let kindf = [FK_OTHER, FK_WOULDBLOCK, FK_WRITE_ZERO, FK_DISK_FULL][t.below(4) as usize];
+        sc.set_l("sink_wfaults", vec![k, kindf]);
+        sc.set_l("sink_script", gen::draw_script(t));
+        note = format!("valid stream of {} bytes output, sink write #{} fails ({})", b.expect.len(), k, fk_name(kindf));
+        sc.set_b("expect", b.expect.clone());
     } else if kind == 1 {
         let m = mutate(t, &mut input);
         note = format!("mutation: {}", m);
@@ -125,13 +135,30 @@ fn exec(sc: &Scenario, ctx: &mut Ctx) -> Vec<Violation> {
     } else {
         None
     };
-    let (sink, st) = SimSink::new(expect.clone(), &[], Faults::none(), Faults::none());
+    let (sink, st) = SimSink::new(
+        expect.clone(),
+        sc.l("sink_script"),
+        Faults::from_list(sc.l("sink_wfaults")),
+        Faults::none(),
+    );
     let o = run_stream(input, sc.l("ops"), &opts, sink, &st, true);
     let s = st.borrow();
     let mk = |class: &str, detail: String| vec![Violation::new(class, "Stream call history", detail, sc)];
     ctx.stats.eval(sc.hash(), true, o.events.len() as u64);
     if let Some(p) = &o.panicked {
         return vec![Violation::new("panic", &panic_locus(p), p.clone(), sc)];
+    }
+    if s.fired_hard > 0 {
+        ctx.stats.hit("fault.fired.sink_write_fails_during_a_stream_write");
+        // the call during which the sink failed must itself have failed
+        for (i, ev) in o.events.iter().enumerate() {
+            if ev.fault_fired && ev.result.is_ok() {
+                return mk(
+                    "sink_failure_swallowed",
+                    format!("the sink failed during call #{} (op {}), which returned Ok", i, ev.op),
+                );
+            }
+        }
     }
     // failure latch
     if let Some(e) = o.first_write_err {
@@ -262,7 +289,7 @@ fn exec(sc: &Scenario, ctx: &mut Ctx) -> Vec<Violation> {
 pub static C16: SimpleProp = SimpleProp {
     id: "C16",
     level: "exploration",
-    rule: "one evaluation = one call history (3-50 calls of write with sizes 0..2000 / write_all-style pieces / flush / get_output, then finish) over a valid, corrupted (bit flip, truncation, splice, extension) or over-long input, continuing after the first Err and after the declared size is reached; latch rules are checked over the recorded (call, result, sink length) history; distinct by scenario hash; every case non-trivial (>= 3 calls)",
+    rule: "one evaluation = one call history (3-50 calls of write with sizes 0..2000 / write_all-style pieces / flush / get_output, then finish) over a valid, corrupted (bit flip, truncation, splice, extension), over-long or size-lying input, an invalid header byte, or a multi-window stream whose sink fails while the window is handed over, continuing after the first Err and after the declared size is reached; latch rules are checked over the recorded (call, result, sink length) history; distinct by scenario hash; every case non-trivial (>= 3 calls)",
     runs_quick: 100_000,
     runs_thorough: 5_000_000,
     both_profiles: false,
